@@ -35,7 +35,7 @@ ROW_KIND = {
 def run(ctx):
     repo = ctx.repo
     res = Result(PROP)
-    res.rules = ["K1", "K2", "K5", "M-MAP", "M-EMPTY", "M-DTYPE", "M-ZERO", "M-ALIGN", "M-FLOW", "M-NORM", "M-IDEM"]
+    res.rules = ["K1", "K2", "K5", "M-MAP", "M-EMPTY", "M-DTYPE", "M-ZERO", "M-ALIGN", "M-FLOW", "M-NORM", "M-IDEM", "M-THRESH"]
     res.explanation = (
         "Narrow claim: kind inference over the matrix builders plus provenance of the returned index maps, definite "
         "assignment in the degenerate-shape branches and a dependency check on the multi-order normaliser. The numerical "
@@ -69,6 +69,14 @@ def run(ctx):
                      "def adjacency_tensor(H, order):\n    B = np.zeros((3,) * (order + 1))\n    for idx in H:\n        B[idx] += 1\n    return B\n",
                      lambda n: f"`{unparse(n, 60)}` populates the tensor by accumulation; a hyperedge that occurs k times (multi-edges are admissible) contributes k instead of 1, so the entries are no longer the indicator of 'these nodes form a hyperedge' (nor 1/d! of it when normalised)",
                      "accumulating population of the indicator tensor")
+        # M-THRESH: the entries compared with the threshold s are the counts themselves
+        th = [f for f in fns if "s" in f.all_params]
+        if not th:
+            raise AnalysisError("no matrix builder with a threshold parameter `s` found (anchor vanished)")
+        pattern_lint(res, PROP, "M-THRESH", th, collapse_before_threshold,
+                     "def adjacency_matrix(H, s=1, weighted=False):\n    A = count(H)\n    if not weighted:\n        np.minimum(A, 1, out=A)\n    A[A < s] = 0\n    return A\n",
+                     lambda n: f"`{unparse(n, 60)}` collapses the co-membership counts to 0/1 on a path on which they have not yet been compared with `s`; for s >= 2 the later comparison sees only 0 and 1 and removes every entry, so the matrix no longer marks the pairs that share at least s edges",
+                     "collapse of the counts before the comparison with the threshold")
         from .common import check_dead_params, misaligned_zips
 
         nd = check_dead_params(res, PROP, "M-FLOW", fns, "the matrix or the index maps returned")
@@ -87,6 +95,60 @@ def run(ctx):
                     res.add(mk_finding(PROP, "M-ALIGN", fn, z, f"{fn.qualname}: `{unparse(z, 50)}` pairs sequences that were filtered or reordered differently ({detail}); element i of one meets element j of another - a weight is applied to the wrong order", role="zip"))
         res.floor("pairwise-consumed sequences in linalg", nz, 1)
     return res
+
+
+def collapse_before_threshold(fn_node):
+    """Statements that turn the matrix that is later compared with the parameter `s` into a 0/1 (or clipped) matrix and
+    are not dominated by a statement that compares the matrix with `s` (a statement doing both at once, such as
+    `A = (A >= s) * 1`, thresholds the counts it reads and is fine)."""
+    if not any(a.arg == "s" for a in fn_node.args.args + fn_node.args.kwonlyargs):
+        return
+    def mentions_s(n):
+        return any(isinstance(x, ast.Compare) and any(isinstance(y, ast.Name) and y.id == "s" for y in ast.walk(x)) for x in ast.walk(n))
+
+    stmts = own_statements(fn_node)
+    thresh = [st for st in stmts if not isinstance(st, (ast.If, ast.For, ast.While, ast.Try, ast.With)) and mentions_s(st)]
+    if not thresh:
+        return
+    # the matrix names that are compared with s
+    mats = set()
+    for st in thresh:
+        for x in ast.walk(st):
+            if isinstance(x, ast.Compare) and any(isinstance(y, ast.Name) and y.id == "s" for y in ast.walk(x)):
+                mats |= {y.id for y in ast.walk(x) if isinstance(y, ast.Name) and y.id != "s"}
+    def collapses(st):
+        if mentions_s(st):
+            return None
+        for c in ast.walk(st):
+            if isinstance(c, ast.Call):
+                nm = getattr(c.func, "attr", getattr(c.func, "id", None))
+                args_m = [a for a in list(c.args) + [k.value for k in c.keywords] if isinstance(a, ast.Name) and a.id in mats]
+                recv_m = isinstance(c.func, ast.Attribute) and isinstance(c.func.value, ast.Name) and c.func.value.id in mats
+                if nm in ("minimum", "clip", "sign", "heaviside") and args_m:
+                    return c
+                if nm == "clip" and recv_m:
+                    return c
+                if nm == "astype" and recv_m and c.args and getattr(c.args[0], "id", getattr(c.args[0], "attr", None)) in ("bool", "bool_"):
+                    return c
+            if isinstance(c, ast.Compare) and isinstance(c.left, ast.Name) and c.left.id in mats and len(c.comparators) == 1 and isinstance(c.comparators[0], ast.Constant) and c.comparators[0].value in (0, 1) and isinstance(c.ops[0], (ast.Gt, ast.NotEq, ast.GtE)):
+                # A > 0 / A != 0 / A >= 1 used as the new value of the matrix or as a mask that is set to 1
+                if isinstance(st, ast.Assign) and any((isinstance(t, ast.Name) and t.id in mats) or (isinstance(t, ast.Subscript) and isinstance(t.value, ast.Name) and t.value.id in mats) for t in st.targets):
+                    return c
+        return None
+
+    cfg = CFG(fn_node)
+    for st in stmts:
+        if isinstance(st, (ast.If, ast.For, ast.While, ast.Try, ast.With)):
+            continue
+        c = collapses(st)
+        if c is None:
+            continue
+        # is the collapsed value written back to the matrix?
+        writes_back = (isinstance(st, ast.Assign) and any(isinstance(x, ast.Name) and x.id in mats for t in st.targets for x in ast.walk(t))) or any(isinstance(k, ast.keyword) and k.arg == "out" for k in ast.walk(st)) or isinstance(st, ast.AugAssign)
+        if not writes_back:
+            continue
+        if not cfg.dominated_by(st, lambda n: any(n is t for t in thresh)) and any(t in cfg.reachable(st) for t in thresh):
+            yield st
 
 
 def accumulating_population(fn_node):
